@@ -102,6 +102,40 @@ fn corner() -> Vec<String> {
         })).map_err(|_| ());
         check(&format!("zst-vec-into-boxed-slice:n={}", n), b, s);
     }
+    // a value whose order is only partial (an incomparable pair exists): the box compares exactly as the value does,
+    // operator by operator (`le` is not `!gt` here)
+    let vals = [f64::NAN, f64::NEG_INFINITY, -1.0, -0.0, 0.0, 1.5, f64::INFINITY];
+    let ops7 = |x: &dyn Fn() -> (bool, bool, bool, bool, bool, bool, Option<std::cmp::Ordering>)| {
+        let (eq, ne, lt, le, gt, ge, pc) = x();
+        format!("eq={} ne={} lt={} le={} gt={} ge={} pcmp={:?}", eq as u8, ne as u8, lt as u8, le as u8, gt as u8, ge as u8, pc)
+    };
+    for (i, &x) in vals.iter().enumerate() {
+        for (j, &y) in vals.iter().enumerate() {
+            let b = catch_unwind(AssertUnwindSafe(|| {
+                let bump = Bump::new();
+                let (p, q) = (bumpalo::boxed::Box::new_in(x, &bump), bumpalo::boxed::Box::new_in(y, &bump));
+                ops7(&|| (p == q, p != q, p < q, p <= q, p > q, p >= q, PartialOrd::partial_cmp(&p, &q)))
+            })).map_err(|_| ());
+            let s = catch_unwind(AssertUnwindSafe(|| ops7(&|| (x == y, x != y, x < y, x <= y, x > y, x >= y, PartialOrd::partial_cmp(&x, &y))))).map_err(|_| ());
+            check(&format!("partial-order-scalar:{}:{}", i, j), b, s);
+            // the same through an unsized pointee (a boxed slice converted from an arena vector)
+            let b = catch_unwind(AssertUnwindSafe(|| {
+                let bump = Bump::new();
+                let mk = |z: f64| {
+                    let mut v: BVec<f64> = BVec::new_in(&bump);
+                    v.extend_from_slice_copy(&[1.0, z]);
+                    v.into_boxed_slice()
+                };
+                let (p, q) = (mk(x), mk(y));
+                ops7(&|| (p == q, p != q, p < q, p <= q, p > q, p >= q, PartialOrd::partial_cmp(&p, &q)))
+            })).map_err(|_| ());
+            let s = catch_unwind(AssertUnwindSafe(|| {
+                let (p, q): (Box<[f64]>, Box<[f64]>) = (vec![1.0, x].into_boxed_slice(), vec![1.0, y].into_boxed_slice());
+                ops7(&|| (p == q, p != q, p < q, p <= q, p > q, p >= q, PartialOrd::partial_cmp(&p, &q)))
+            })).map_err(|_| ());
+            check(&format!("partial-order-slice:{}:{}", i, j), b, s);
+        }
+    }
     fails
 }
 
